@@ -303,7 +303,7 @@ func TestC02UnaryPostfix(t *testing.T) {
 func TestC02Generated(t *testing.T) {
 	run := h.Begin("C02", "generated", "rapid: random ASTs (depth<=6, all node kinds, spread, keywords after dots) printed with parentheses only where the grammar level requires them and a random layout (never a line break before '.', '!.', call '('); oracle: the generated tree itself, cross-checked with the reference parser; non-trivial: >=2 precedence levels or unary/postfix mix or list; distinct by text")
 	defer run.End(t)
-	h.RapidSetup(h.N(4000, 300000), "c02gen")
+	h.RapidSetup(h.N(4000, 1200000), "c02gen")
 	rapid.Check(t, func(rt *rapid.T) {
 		depth := rapid.IntRange(1, 6).Draw(rt, "depth")
 		ast := genExpr(rt, &syntaxCfg, depth, ref.LvComma)
@@ -325,7 +325,7 @@ func TestC02Generated(t *testing.T) {
 func TestC02Mutated(t *testing.T) {
 	run := h.Begin("C02", "mutated", "rapid: a generated valid program with one or two token-level mutations (delete, insert a random lexeme, swap neighbours, duplicate, turn a gap into a line break); oracle: reference parser; non-trivial: as for token sequences; distinct by text")
 	defer run.End(t)
-	h.RapidSetup(h.N(4000, 300000), "c02mut")
+	h.RapidSetup(h.N(4000, 1200000), "c02mut")
 	rapid.Check(t, func(rt *rapid.T) {
 		depth := rapid.IntRange(1, 4).Draw(rt, "depth")
 		ast := genExpr(rt, &syntaxCfg, depth, ref.LvComma)
